@@ -93,9 +93,60 @@ type Backend struct {
 
 var _ memstore.Backend = (*Backend)(nil)
 
+var lpgPrivate string
+
+// privateLpg: a private copy of the LeanPG executable, made once per run. The shared binary
+// (lean/.lake/build/bin/ldriver_sql) is re-linked by every concurrently running check — for a moment it
+// does not exist, and a run against another tree may replace it by that tree's model; one run must talk
+// to ONE modelled Postgres from its first case to its last.
+func privateLpg() (string, error) {
+	if lpgPrivate != "" {
+		return lpgPrivate, nil
+	}
+	src := pgfake.DefaultLpgPath()
+	var data []byte
+	var err error
+	deadline := time.Now().Add(5 * time.Minute)
+	for {
+		data, err = os.ReadFile(src)
+		if err == nil && len(data) > 0 {
+			break
+		}
+		if time.Now().After(deadline) {
+			return "", fmt.Errorf("LeanPG executable %s not available: %v", src, err)
+		}
+		time.Sleep(2 * time.Second)
+	}
+	f, err := os.CreateTemp("", "vre2e-lpg-*")
+	if err != nil {
+		return "", err
+	}
+	if _, err := f.Write(data); err != nil {
+		return "", err
+	}
+	_ = f.Close()
+	if err := os.Chmod(f.Name(), 0o755); err != nil {
+		return "", err
+	}
+	lpgPrivate = f.Name()
+	return lpgPrivate, nil
+}
+
+// RemovePrivateLpg deletes the private copy (end of a workload).
+func RemovePrivateLpg() {
+	if lpgPrivate != "" {
+		_ = os.Remove(lpgPrivate)
+		lpgPrivate = ""
+	}
+}
+
 // Start launches one LeanPG process and the real storage driver over it.
 func Start() (*Backend, error) {
-	srv, err := pgfake.Start(pgfake.DefaultLpgPath())
+	path, err := privateLpg()
+	if err != nil {
+		return nil, err
+	}
+	srv, err := pgfake.Start(path)
 	if err != nil {
 		return nil, fmt.Errorf("LeanPG (the modelled Postgres) is not available — lake build ldriver_sql: %w", err)
 	}
